@@ -64,7 +64,7 @@ func (o goArrayObject) setValue(index int64, value Value) bool {
 	}
 	reflectValue, err := value.toReflectValue(reflect.Indirect(o.value).Type().Elem())
 	if err != nil {
-		panic(err)
+		panic(reflectConversionError(err))
 	}
 	indexValue.Set(reflectValue)
 	return true
